@@ -16,9 +16,10 @@ type Pointer struct {
 	Path     []string   // field path inside the owner struct
 	Idx      *Term      // element index inside the array designated by Base/Path
 	ArrT     types.Type // array type designated by Base/Path when Idx != nil
+	EPath    []string   // field path inside the (struct) element selected by Idx
 }
 
-func (p *Pointer) simple() bool { return len(p.Path) == 0 && p.Idx == nil }
+func (p *Pointer) simple() bool { return len(p.Path) == 0 && p.Idx == nil && len(p.EPath) == 0 }
 
 type Value struct {
 	T  types.Type
@@ -200,11 +201,25 @@ func arrElemType(t types.Type) types.Type {
 
 // load reads the value of Go type t designated by p.
 func (x *Exec) load(st *State, p *Pointer, t types.Type) *Value {
+	if p.Idx != nil && len(p.EPath) > 0 {
+		if x.isStruct(t) {
+			return x.loadStructElem(st, p, t, p.EPath)
+		}
+		srt := x.sortOf(t)
+		k, ks := x.structElemKey(p.OwnerKey, p.EPath, srt, t)
+		tm := Select(Select(st.hget(k, ks), p.Base), p.Idx)
+		v := x.typed(t, tm)
+		x.assumeAllocated(st, t, tm)
+		return v
+	}
+	if p.Idx != nil && x.isStruct(t) {
+		if len(p.Path) != 0 {
+			panic(engErr("array of struct values inside a struct not supported (%s)", t))
+		}
+		return x.loadStructElem(st, p, t, nil)
+	}
 	if p.Idx != nil {
 		arr := x.load(st, &Pointer{Base: p.Base, OwnerKey: p.OwnerKey, Path: p.Path}, p.ArrT)
-		if x.isStruct(t) {
-			panic(engErr("array of struct values not supported (%s)", t))
-		}
 		return x.typed(t, Select(arr.Tm, p.Idx))
 	}
 	if x.isStruct(t) {
@@ -300,12 +315,28 @@ func intRange(ii intInfo) (*big.Int, *big.Int) {
 }
 
 func (x *Exec) store(st *State, p *Pointer, t types.Type, v *Value) {
+	if p.Idx != nil && len(p.EPath) > 0 {
+		if x.isStruct(t) {
+			x.storeStructElem(st, p, t, p.EPath, v)
+			return
+		}
+		srt := x.sortOf(t)
+		k, ks := x.structElemKey(p.OwnerKey, p.EPath, srt, t)
+		m := st.hget(k, ks)
+		inner := Store(Select(m, p.Base), p.Idx, x.coerce(v, t).term())
+		st.hset(k, x.vc.define("h", Store(m, p.Base, inner)), p.Base)
+		return
+	}
+	if p.Idx != nil && x.isStruct(t) {
+		if len(p.Path) != 0 {
+			panic(engErr("array of struct values inside a struct not supported (%s)", t))
+		}
+		x.storeStructElem(st, p, t, nil, v)
+		return
+	}
 	if p.Idx != nil {
 		base := &Pointer{Base: p.Base, OwnerKey: p.OwnerKey, Path: p.Path}
 		arr := x.load(st, base, p.ArrT)
-		if x.isStruct(t) {
-			panic(engErr("array of struct values not supported (%s)", t))
-		}
 		na := Store(arr.Tm, p.Idx, x.coerce(v, t).term())
 		x.store(st, base, p.ArrT, &Value{T: p.ArrT, Tm: x.vc.define("arr", na)})
 		return
@@ -753,4 +784,70 @@ func (x *Exec) mergeArr(c, ta, tb *Term) *Term {
 		cur = Store(cur, s.k, Ite(c, Select(cur, s.k), s.v))
 	}
 	return cur
+}
+
+// Slices whose elements are struct values are stored field-wise: one element map per
+// (struct type, field path), "ES!<Type>!<path>" : backing-array ref -> index -> field value.
+func (x *Exec) structElemKey(key string, path []string, fs *Sort, ft types.Type) (string, *Sort) {
+	return "ES!" + key + "!" + strings.Join(path, ".") + refTag(ft), ArrS(IntS, ArrS(IntS, fs))
+}
+
+func (x *Exec) loadStructElem(st *State, p *Pointer, t types.Type, path []string) *Value {
+	fs, key := x.fieldsOf(t)
+	if len(path) > 0 {
+		key = p.OwnerKey
+	}
+	v := &Value{T: t}
+	for _, f := range fs {
+		fpath := append(append([]string{}, path...), f.Name)
+		if f.S == nil && x.isStruct(f.T) {
+			sub := &Pointer{Base: p.Base, Idx: p.Idx, ArrT: p.ArrT, OwnerKey: key}
+			v.Fs = append(v.Fs, x.loadStructElem(st, sub, f.T, fpath))
+			continue
+		}
+		srt := f.S
+		if srt == nil {
+			srt = x.sortOf(f.T)
+		}
+		k, ks := x.structElemKey(key, fpath, srt, f.T)
+		tm := Select(Select(st.hget(k, ks), p.Base), p.Idx)
+		if f.S != nil {
+			v.Fs = append(v.Fs, &Value{Tm: tm})
+		} else {
+			fv := x.typed(f.T, tm)
+			x.assumeAllocated(st, f.T, tm)
+			v.Fs = append(v.Fs, fv)
+		}
+	}
+	return v
+}
+
+func (x *Exec) storeStructElem(st *State, p *Pointer, t types.Type, path []string, v *Value) {
+	fs, key := x.fieldsOf(t)
+	if len(path) > 0 {
+		key = p.OwnerKey
+	}
+	if len(v.Fs) != len(fs) {
+		panic(engErr("struct element store arity mismatch for %s", t))
+	}
+	for i, f := range fs {
+		fpath := append(append([]string{}, path...), f.Name)
+		if f.S == nil && x.isStruct(f.T) {
+			sub := &Pointer{Base: p.Base, Idx: p.Idx, ArrT: p.ArrT, OwnerKey: key}
+			x.storeStructElem(st, sub, f.T, fpath, v.Fs[i])
+			continue
+		}
+		srt := f.S
+		var tm *Term
+		if srt == nil {
+			srt = x.sortOf(f.T)
+			tm = x.coerce(v.Fs[i], f.T).term()
+		} else {
+			tm = v.Fs[i].Tm
+		}
+		k, ks := x.structElemKey(key, fpath, srt, f.T)
+		m := st.hget(k, ks)
+		inner := Store(Select(m, p.Base), p.Idx, tm)
+		st.hset(k, x.vc.define("h", Store(m, p.Base, inner)), p.Base)
+	}
 }
